@@ -103,6 +103,8 @@ pub struct Bad {
     pub plan: Plan,
     pub splice: Option<usize>,
     pub shape: u8,
+    /// C04 `sentence-rejected`: length of the prefix that is known to be a sentence
+    pub aux: Option<usize>,
 }
 
 fn is_pull(e: &Ev) -> bool {
@@ -196,7 +198,7 @@ pub fn check_c17(w: &World, s: &dyn Sut, toks: &[usize], shape: u8, _rng: &mut R
         Err(_) => "panic",
     };
     if let Err(p) = &base.out {
-        bad.push(Bad { property: "C17", key: format!("parse-panics|backend={be}|fault=none"), detail: format!("fault-free parse panicked: {p}"), plan: Plan::default(), splice: None, shape });
+        bad.push(Bad { property: "C17", key: format!("parse-panics|backend={be}|fault=none"), detail: format!("fault-free parse panicked: {p}"), plan: Plan::default(), splice: None, shape, aux: None });
         return bad;
     }
     let (rec_pulls, rec_acts) = recovery_positions(&base.log);
@@ -232,6 +234,7 @@ pub fn check_c17(w: &World, s: &dyn Sut, toks: &[usize], shape: u8, _rng: &mut R
                 plan,
                 splice: None,
                 shape,
+                aux: None,
             });
         }
     };
@@ -332,6 +335,7 @@ pub fn check_c17(w: &World, s: &dyn Sut, toks: &[usize], shape: u8, _rng: &mut R
                     plan: Plan::default(),
                     splice: Some(b),
                     shape,
+                    aux: None,
                 });
             }
         }
@@ -340,7 +344,34 @@ pub fn check_c17(w: &World, s: &dyn Sut, toks: &[usize], shape: u8, _rng: &mut R
 }
 
 /// C04, end-of-stream clause: every proper prefix of a sentence.
+/// text with extra white space around and between tokens; returns (text, end offset of the last token)
+pub fn decorated_text(spec: &Spec, toks: &[usize], style: u8) -> (String, usize) {
+    let (lead, sep, trail) = match style {
+        1 => ("", " ", "  "),
+        2 => ("\n ", "\t", "\n"),
+        3 => ("  ", "  \n ", " \t \n\n"),
+        _ => ("", " ", ""),
+    };
+    let mut s = String::from(lead);
+    let mut end = 0usize;
+    for (i, t) in toks.iter().enumerate() {
+        if i > 0 {
+            s.push_str(sep);
+        }
+        s.push_str(spec.terminals.get(*t).map(|x| x.as_str()).unwrap_or("@"));
+        end = s.len();
+    }
+    s.push_str(trail);
+    (s, end)
+}
+
 pub fn check_c04(w: &World, s: &dyn Sut, sentence: &[usize], shape: u8, st: &mut Stats) -> (Vec<Bad>, Vec<(usize, &'static str, i64)>) {
+    check_c04_known(w, s, sentence, shape, st, &BTreeSet::new())
+}
+
+/// `known`: token sequences known to be sentences of this start symbol (they were sampled from the
+/// grammar): a prefix that is one of them must be accepted, not reported as UnrecognizedEof
+pub fn check_c04_known(w: &World, s: &dyn Sut, sentence: &[usize], shape: u8, st: &mut Stats, known: &BTreeSet<Vec<usize>>) -> (Vec<Bad>, Vec<(usize, &'static str, i64)>) {
     let var = w.variant(s);
     let spec = w.spec(s);
     let be = backend(var);
@@ -363,16 +394,37 @@ pub fn check_c04(w: &World, s: &dyn Sut, sentence: &[usize], shape: u8, st: &mut
         let kclass = if k == 0 { "k=0" } else { "k>0" };
         st.shapes.insert(format!("{}|{be}|eof|{kclass}|loc{}", var.module, var.loc));
         let mut problem: Option<String> = None;
+        if known.contains(toks) && !matches!(&r.out, Ok(Outcome::Ok(_))) {
+            problem = Some(format!("sentence-rejected: this prefix is itself a sampled sentence but the result is {:?}", r.out.as_ref().map(|o| o.kind())));
+        }
+        // built-in lexer: white space before, between and after the tokens must not move the location
+        if var.builtin && problem.is_none() {
+            for style in 1..=3u8 {
+                let (text, end) = decorated_text(spec, toks, style);
+                let ctx = Ctx::new(Plan::default());
+                let out = catch_unwind(AssertUnwindSafe(|| s.parse_str(&ctx, &text)));
+                st.truncations += 1;
+                let good = match (&r.out, &out) {
+                    (Ok(Outcome::Ok(a)), Ok(Outcome::Ok(b))) => a == b,
+                    (Ok(Outcome::Eof { .. }), Ok(Outcome::Eof { loc, .. })) => *loc as usize == end,
+                    _ => false,
+                };
+                if !good {
+                    problem = Some(format!("whitespace-moves-result: text {:?} gives {:?}, the plain text gives {:?} (end of last token is {end})", text, out.as_ref().ok(), r.out.as_ref().ok()));
+                    break;
+                }
+            }
+        }
         match &r.out {
             Ok(Outcome::Ok(_)) => verdicts.push((k, "ok", 0)),
             Ok(Outcome::Eof { loc, .. }) => {
                 verdicts.push((k, "eof", *loc));
-                if *loc != want_loc {
+                if problem.is_none() && *loc != want_loc {
                     problem = Some(format!("wrong-location: UnrecognizedEof at {loc}, end of the last token is {want_loc}"));
                 }
             }
-            Ok(o) => problem = Some(format!("wrong-variant: {}", o.kind())),
-            Err(p) => problem = Some(format!("panic: {p}")),
+            Ok(o) => problem = problem.or(Some(format!("wrong-variant: {}", o.kind()))),
+            Err(p) => problem = problem.or(Some(format!("panic: {p}"))),
         }
         if !var.builtin {
             let after_end = r.log.iter().any(|e| matches!(e, Ev::PullAfterEnd(_)));
@@ -382,7 +434,8 @@ pub fn check_c04(w: &World, s: &dyn Sut, sentence: &[usize], shape: u8, st: &mut
         }
         if let Some(p) = problem {
             let short = p.split(':').next().unwrap_or("").to_string();
-            bad.push(Bad { property: "C04", key: format!("eof-clause|backend={be}|{kclass}|problem={short}"), detail: format!("sentence cut after {k} of {} tokens: {p}", sentence.len()), plan: Plan::default(), splice: None, shape });
+            let aux = if short == "sentence-rejected" { Some(k) } else { None };
+            bad.push(Bad { property: "C04", key: format!("eof-clause|backend={be}|{kclass}|problem={short}"), detail: format!("sentence cut after {k} of {} tokens: {p}", sentence.len()), plan: Plan::default(), splice: None, shape, aux });
         }
     }
     (bad, verdicts)
@@ -400,6 +453,7 @@ pub fn case_json(w: &World, s: &dyn Sut, toks: &[usize], b: &Bad) -> Value {
         "plan": {"stream_err": b.plan.stream_err, "act_err": b.plan.act_err},
         "splice": b.splice,
         "eof_sentence": b.property == "C04",
+        "known_sentence_prefix": b.aux,
     })
 }
 
@@ -496,6 +550,7 @@ pub fn sweep(w: &World, seed: u64, per_parser: usize, workers: usize) -> Summary
                 // back ends of one grammar see the same inputs and can be compared
                 let mut rng = Rng::derive(seed, (var.spec as u64) * 1000 + spec.nts.iter().position(|n| n.name == s.info().start).unwrap_or(0) as u64);
                 let ins = inputs(w, s, &mut rng, per_parser);
+                let known: BTreeSet<Vec<usize>> = ins.iter().filter(|(_, is_sentence)| *is_sentence).map(|(t, _)| t.clone()).collect();
                 let mut st = Stats::default();
                 let mut local: Vec<(Vec<usize>, Bad)> = Vec::new();
                 let mut frng = Rng::derive(seed, 77_000 + i as u64);
@@ -506,7 +561,7 @@ pub fn sweep(w: &World, seed: u64, per_parser: usize, workers: usize) -> Summary
                             local.push((toks.clone(), b));
                         }
                         if *is_sentence && !spec.has_recovery && !toks.is_empty() {
-                            let (bads, v) = check_c04(w, s, toks, shape, &mut st);
+                            let (bads, v) = check_c04_known(w, s, toks, shape, &mut st, &known);
                             for b in bads {
                                 local.push((toks.clone(), b));
                             }
@@ -540,7 +595,7 @@ pub fn sweep(w: &World, seed: u64, per_parser: usize, workers: usize) -> Summary
                     let key = "eof-clause|back-ends-disagree".to_string();
                     let idx = w.suts.iter().position(|s| w.variant(s.as_ref()).module == *m && s.info().start == start).unwrap_or(0);
                     sum.bad.entry(key.clone()).or_insert_with(|| {
-                        (idx, vec![], Bad { property: "C04", key, detail: format!("spec {} start {start}: {m0} gives {:?}, {m} gives {:?}", w.specs[spec].name, k0, k1), plan: Plan::default(), splice: None, shape: 0 }, 1)
+                        (idx, vec![], Bad { property: "C04", key, detail: format!("spec {} start {start}: {m0} gives {:?}, {m} gives {:?}", w.specs[spec].name, k0, k1), plan: Plan::default(), splice: None, shape: 0, aux: None }, 1)
                     });
                 }
             }
